@@ -169,8 +169,9 @@ func c14(c *ctx) {
 		die("concurrent run: %v", err)
 	}
 	if cp.WatchdogHits > 0 {
-		c.run.Incon(fmt.Sprintf("%d child processes were stopped by the wall-clock watchdog", cp.WatchdogHits))
+		c.run.Incon(fmt.Sprintf("%d child processes were stopped by the wall-clock watchdog or killed from outside (not by this check's limits)", cp.WatchdogHits))
 	}
+	c.run.Max("peak_child_resident_mb", cp.PeakMB)
 	for i, q := range conc {
 		res := concRes[i]
 		if res.Lost {
